@@ -32,13 +32,16 @@ package jobs
 //   - jobrunner.MainCron is process-global: one vjHub at a time per process.
 
 import (
+	"bytes"
 	"encoding/base64"
 	"encoding/json"
 	"fmt"
 	"os"
 	"path/filepath"
+	"runtime"
 	"strings"
 	"sync"
+	"time"
 
 	"github.com/DataDog/datadog-go/v5/statsd"
 	"go.uber.org/zap"
@@ -75,6 +78,9 @@ type vjHub struct {
 	Bus    server.EventBus
 	P      []string // store prefixes of kit.PoolNS
 	logs   *vjLogCore
+	// stray: a MultiSource run ended with an error. Its query goroutine (multi_source.go processDependency)
+	// is not waited for by the run and may still be reading the store; close() lets it finish first.
+	stray bool
 }
 
 // vjLogCore is a zap core that keeps messages with a given prefix.
@@ -187,6 +193,9 @@ func newVJHub(o vjOpts) *vjHub {
 }
 
 func (h *vjHub) close() {
+	if h.stray {
+		vjQuiesceQueries()
+	}
 	vjQuiet(func() {
 		if h.Runner != nil {
 			h.Runner.Stop()
@@ -197,6 +206,43 @@ func (h *vjHub) close() {
 		}
 	})
 	_ = os.RemoveAll(h.Dir)
+}
+
+// vjQuiesceQueries waits until no query goroutine of a MultiSource run is still working. A run that ends
+// with an error returns without waiting for the goroutine it started; that goroutine goes on reading the
+// store until it has worked through its start points or parks for ever in a channel send nobody receives.
+// Closing the store under it is a shutdown race the product has (ProcessChangesRaw then dereferences the
+// nil item of a failed txn.Get) and has nothing to do with the properties checked here, so the harness,
+// which opens and closes a store per case inside one process, does not provoke it.
+func vjQuiesceQueries() {
+	deadline := time.Now().Add(30 * time.Second)
+	buf := make([]byte, 1<<20)
+	for {
+		n := runtime.Stack(buf, true)
+		for n == len(buf) {
+			buf = make([]byte, 2*len(buf))
+			n = runtime.Stack(buf, true)
+		}
+		busy := false
+		for _, g := range bytes.Split(buf[:n], []byte("\n\n")) {
+			if !bytes.Contains(g, []byte("processDependency.func1(")) {
+				continue
+			}
+			hdr := g
+			if i := bytes.IndexByte(g, '\n'); i >= 0 {
+				hdr = g[:i]
+			}
+			if bytes.Contains(hdr, []byte("[chan send")) {
+				continue // parked for good
+			}
+			busy = true
+			break
+		}
+		if !busy || time.Now().After(deadline) {
+			return
+		}
+		time.Sleep(time.Millisecond)
+	}
 }
 
 func (h *vjHub) createDataset(name string) *server.Dataset {
